@@ -123,7 +123,7 @@ Definition parse_fmt_flags (c : cell) : option Z :=
   match tags_of c with
   | None => None
   | Some t => match assoc_find t fmt_tag_name with
-              | Some v => match to_usize v with Ok z => Some z | _ => None end
+              | Some v => match to_usize v with Ok z => Some (z mod 65536)%Z | _ => None end   (* raw & 0xffff *)
               | None => None
               end
   end.
